@@ -59,7 +59,23 @@ struct ABTD_ythread_context {
     size_t stacksize;
     ABTD_ythread_context_atomic_ptr
         p_link; /* pointer to the waiter's context */
+#ifdef PMODELS_ARGOBOTS_VERIF
+    void *verif_tsan_fiber; /* TSan fiber of this context */
+    void *verif_asan_fake;  /* ASan fake stack saved across a switch */
+    int verif_tsan_owned;   /* fiber was created for this context */
+#endif
 };
+
+#ifdef PMODELS_ARGOBOTS_VERIF
+#include "abtd_verif_fiber.h"
+#else
+#define ABTD_VERIF_CTX_INIT(p_ctx)
+#define ABTD_VERIF_CTX_FINI(p_ctx)
+#define ABTD_VERIF_PRE_SWITCH(p_old, p_new)
+#define ABTD_VERIF_POST_SWITCH(p_old)
+#define ABTD_VERIF_PRE_JUMP(p_new)
+#define ABTD_VERIF_ENTER(p_ctx)
+#endif
 
 static inline ABTD_ythread_context *
 ABTDI_ythread_context_get_context(fcontext_t *p_fctx)
@@ -71,6 +87,7 @@ ABTDI_ythread_context_get_context(fcontext_t *p_fctx)
 static void ABTD_ythread_context_func_wrapper(fcontext_t *p_fctx)
 {
     ABTD_ythread_context *p_ctx = ABTDI_ythread_context_get_context(p_fctx);
+    ABTD_VERIF_ENTER(p_ctx);
     ABTD_ythread_func_wrapper(p_ctx);
     /* ABTD_ythread_func_wrapper() must context-switch to another before it
      * finishes. */
@@ -84,6 +101,7 @@ static inline void ABTD_ythread_context_init(ABTD_ythread_context *p_ctx,
     p_ctx->p_stacktop = p_stacktop;
     p_ctx->stacksize = stacksize;
     ABTD_atomic_relaxed_store_ythread_context_ptr(&p_ctx->p_link, NULL);
+    ABTD_VERIF_CTX_INIT(p_ctx);
 }
 
 static inline void ABTD_ythread_context_init_lazy(ABTD_ythread_context *p_ctx,
@@ -93,6 +111,7 @@ static inline void ABTD_ythread_context_init_lazy(ABTD_ythread_context *p_ctx,
     p_ctx->p_stacktop = NULL;
     p_ctx->stacksize = stacksize;
     ABTD_atomic_relaxed_store_ythread_context_ptr(&p_ctx->p_link, NULL);
+    ABTD_VERIF_CTX_INIT(p_ctx);
 }
 
 static inline void
@@ -143,7 +162,9 @@ static inline void ABTD_ythread_context_switch(ABTD_ythread_context *p_old,
 {
     ABTI_UB_ASSERT(ABTDI_fcontext_is_created(&p_new->ctx));
     /* The context is already initialized. */
+    ABTD_VERIF_PRE_SWITCH(p_old, p_new);
     switch_fcontext(&p_new->ctx, &p_old->ctx);
+    ABTD_VERIF_POST_SWITCH(p_old);
 }
 
 static inline void
@@ -152,8 +173,10 @@ ABTD_ythread_context_start_and_switch(ABTD_ythread_context *p_old,
 {
     ABTI_UB_ASSERT(!ABTDI_fcontext_is_created(&p_new->ctx));
     /* First time. */
+    ABTD_VERIF_PRE_SWITCH(p_old, p_new);
     init_and_switch_fcontext(&p_new->ctx, ABTD_ythread_context_func_wrapper,
                              p_new->p_stacktop, &p_old->ctx);
+    ABTD_VERIF_POST_SWITCH(p_old);
 }
 
 ABTU_noreturn static inline void
@@ -161,6 +184,7 @@ ABTD_ythread_context_jump(ABTD_ythread_context *p_new)
 {
     ABTI_UB_ASSERT(ABTDI_fcontext_is_created(&p_new->ctx));
     /* The context is already initialized. */
+    ABTD_VERIF_PRE_JUMP(p_new);
     jump_fcontext(&p_new->ctx);
     ABTU_unreachable();
 }
@@ -170,6 +194,7 @@ ABTD_ythread_context_start_and_jump(ABTD_ythread_context *p_new)
 {
     ABTI_UB_ASSERT(!ABTDI_fcontext_is_created(&p_new->ctx));
     /* First time. */
+    ABTD_VERIF_PRE_JUMP(p_new);
     init_and_jump_fcontext(&p_new->ctx, ABTD_ythread_context_func_wrapper,
                            p_new->p_stacktop);
     ABTU_unreachable();
@@ -183,7 +208,9 @@ ABTD_ythread_context_switch_with_call(ABTD_ythread_context *p_old,
     ABTI_UB_ASSERT(ABTDI_fcontext_is_created(&p_new->ctx));
     /* The context is already initialized. */
 
+    ABTD_VERIF_PRE_SWITCH(p_old, p_new);
     switch_with_call_fcontext(cb_arg, f_cb, &p_new->ctx, &p_old->ctx);
+    ABTD_VERIF_POST_SWITCH(p_old);
 }
 
 static inline void ABTD_ythread_context_start_and_switch_with_call(
@@ -192,9 +219,11 @@ static inline void ABTD_ythread_context_start_and_switch_with_call(
 {
     ABTI_UB_ASSERT(!ABTDI_fcontext_is_created(&p_new->ctx));
     /* First time. */
+    ABTD_VERIF_PRE_SWITCH(p_old, p_new);
     init_and_switch_with_call_fcontext(cb_arg, f_cb, &p_new->ctx,
                                        ABTD_ythread_context_func_wrapper,
                                        p_new->p_stacktop, &p_old->ctx);
+    ABTD_VERIF_POST_SWITCH(p_old);
 }
 
 ABTU_noreturn static inline void
@@ -203,6 +232,7 @@ ABTD_ythread_context_jump_with_call(ABTD_ythread_context *p_new,
 {
     ABTI_UB_ASSERT(ABTDI_fcontext_is_created(&p_new->ctx));
     /* The context is already initialized. */
+    ABTD_VERIF_PRE_JUMP(p_new);
     jump_with_call_fcontext(cb_arg, f_cb, &p_new->ctx);
     ABTU_unreachable();
 }
@@ -212,6 +242,7 @@ ABTU_noreturn static inline void ABTD_ythread_context_start_and_jump_with_call(
 {
     ABTI_UB_ASSERT(!ABTDI_fcontext_is_created(&p_new->ctx));
     /* First time. */
+    ABTD_VERIF_PRE_JUMP(p_new);
     init_and_jump_with_call_fcontext(cb_arg, f_cb, &p_new->ctx,
                                      ABTD_ythread_context_func_wrapper,
                                      p_new->p_stacktop);
